@@ -735,10 +735,14 @@ func (c19) Classify(inAny any, obsAny any) []string {
 					case r.Outcome == 0 || r.Outcome == 1 || r.Outcome == 5 || r.Outcome == 6 || r.Outcome == 7:
 					case r.Outcome == 2 && obs.Default == "" && len(in.GProduces) == 0 && (len(o.Produces) == 0 || len(q.Produces) == 0):
 						kf["validate.no_produces_no_default_producer"] = true
+					case r.Outcome == 3 && r.Ran == "" && strings.HasPrefix(r.Detail, "status 500") && obs.Default == "" && len(q.Consumes) == 0 && len(in.GConsumes) == 0 && sv.Req.CT != "":
+						// the router kept the record of the colliding operation, which consumes nothing, and there is no default media
+						// type: no consumer for the body this operation's own consumes list admits (found by the thorough tier)
 					default:
 						return nil
 					}
 				}
+				kf["validate.template_not_clean"] = true
 			default:
 				return nil
 			}
